@@ -17,7 +17,9 @@ T = ["struct", "test", [["a", G.U8, None], ["arr", G.arr(G.U16, 2), None], ["s",
                         ["n", G.U8, None], ["d", G.arr(G.U8, ["expr", ["bin", "&", ["id", "n"], ["num", 1]]]), None]], False]
 OTHER_TEXT = "struct inner { uint32 x; }; struct test { uint64 a; uint8 arr[3]; inner s; }; typedef uint8 myt;"
 
-OPS = ["default.arr[i]=v", "default.s.x=v", "default.a=v", "default.c=v", "kw.arr[i]=v", "parsed.arr[i]=v", "parsed.s.y=v", "parse-other",
+DIV_TEXT = "struct div { uint8 total; uint8 count; uint8 data[2 + (total & 3) / count]; uint8 t; };"
+
+OPS = ["failing-evaluation", "default.arr[i]=v", "default.s.x=v", "default.a=v", "default.c=v", "kw.arr[i]=v", "parsed.arr[i]=v", "parsed.s.y=v", "parse-other",
        "failing-parse", "dump", "second-cstruct", "reparse-odd-n"]
 
 
@@ -29,6 +31,7 @@ def make(case):
     def run(ctx):
         from dissect.cstruct import cstruct
         cs, cls = H.load(T, cfg)
+        cs.load(DIV_TEXT, compiled=cfg["compiled"], align=cfg["align"])
         n = 24
         w0 = ctx.bytes("w0", n)
         keep_default = cls()
@@ -40,7 +43,13 @@ def make(case):
             v = ctx.int(f"v{i}", 1, 0xFFFF)
             name = OPS[op]
             try:
-                if name == "default.arr[i]=v":
+                if name == "failing-evaluation":
+                    # an array length whose evaluation fails half way (division by zero), then a good one
+                    try:
+                        cs.div.read(ctx.stream(bytes([7, 0, 1, 2, 3, 4, 5, 6])))
+                    except ZeroDivisionError:
+                        pass
+                elif name == "default.arr[i]=v":
                     x = cls()
                     x.arr[i % 2] = v
                 elif name == "default.s.x=v":
@@ -109,6 +118,16 @@ def make(case):
         ref0 = H.ref_parser(ctx, cfg)
         rv0, _ = ref0.parse(T, w0, 0)
         ctx.check("instance parsed before the history is unchanged", R.value_eq(T, keep_parsed, rv0))
+        dz = ctx.bytes("dz", 1) + bytes([2]) + ctx.bytes("dr", 6)
+        try:
+            dv = cs.div.read(ctx.stream(dz))
+            cs2.load(DIV_TEXT, compiled=cfg["compiled"], align=cfg["align"])
+            du = cs2.div.read(ctx.stream(dz))
+            ctx.check("expression-sized array after the history: length as in a fresh universe", len(dv.data) == len(du.data))
+            ctx.check("expression-sized array after the history: length = 2 + (total & 3) / count", len(dv.data) == 2 + ((dz[0] & 3) >> 1))
+            ctx.check("expression-sized array after the history: same values", R.And(dv.t == du.t, *[a == b for a, b in zip(dv.data, du.data)]))
+        except Exception as e:  # noqa: BLE001
+            ctx.check("parse with an expression-sized array after the history works", False, H.classify(e))
         ctx.check("types of this cstruct still bound to it", cls.cs is cs and cs.test is cls and cs.endian == cfg["endian"])
     return run
 
